@@ -503,8 +503,10 @@ func TestEngineCrash(t *testing.T) {
 
 		// ---------------------------------------------------------------- consensus parameters
 		if i%25 == 24 {
-			maxGas := hx.Pick(r, []int64{-1, 0, 1, 2, 20999, 21000, 21001, 1_000_000})
-			maxBytes := hx.Pick(r, []int64{1, 200, 22020096, -1})
+			// the degenerate gas targets first, every run; then the rest of the grid in order
+			sweep := i / 25
+			maxGas := []int64{1, 2, 0, 21000, -1, 20999, 21001, 1_000_000, 3}[sweep%9]
+			maxBytes := []int64{22020096, -1, 200, 1}[(sweep/2)%4]
 			cls := fmt.Sprintf("maxgas=%d,maxbytes=%d", maxGas, maxBytes)
 			ctx := c.ctx()
 			cp := c.app.GetConsensusParams(ctx)
